@@ -612,6 +612,7 @@ let handle (op : string) (a : string array) : string =
      | Err _ -> "crash PluralFormsSyntaxError"
      | Crash c -> "crash " ^ crash_name c)
   | "escape" -> out_str (escape u_printable (arg_of a.(0) a.(1)))
+  | "strip_delay" -> out_str (strip_delay (arg_str a.(0)))
   | "fmtline" -> (* sev cer target name on off nargs (kind str)* *)
     let prio = priority (sev_of (arg_int a.(0))) (cer_of (arg_int a.(1))) in
     let nargs = arg_int a.(6) in
